@@ -6,10 +6,80 @@ pub fn validate_addr_or_default(deps: &Deps, unvalidated: Option<Str>, default: 
     ensures r@ == (match unvalidated { Some(s) => if addr_valid(s@) { s@ } else { default@ }, None => default@ })
 { unimplemented!() }
 
-/// mantra-dex-std `aggregate_coins`: sums coins of equal denom and sorts by denom (only used for reporting lists here)
+/// total amount of `denom` in a coin list
+pub open spec fn coin_sum(cs: Seq<Coin>, denom: Seq<char>) -> nat
+    decreases cs.len()
+{
+    if cs.len() == 0 { 0 } else { coin_sum(cs.drop_last(), denom) + (if cs.last().denom@ == denom { cs.last().amount@ } else { 0 }) }
+}
+pub open spec fn denoms_distinct(cs: Seq<Coin>) -> bool {
+    forall|i: int, j: int| 0 <= i < j < cs.len() ==> #[trigger] cs[i].denom@ != #[trigger] cs[j].denom@
+}
+pub open spec fn has_denom(cs: Seq<Coin>, denom: Seq<char>) -> bool {
+    exists|i: int| 0 <= i < cs.len() && #[trigger] cs[i].denom@ == denom
+}
+/// mantra-dex-std `aggregate_coins` (coin.rs): one coin per denom carrying the sum, sorted by denom; Err on u128 overflow
 #[verifier::external_body]
 pub fn aggregate_coins(coins: Vec<Coin>) -> (r: Result<Vec<Coin>, StdError>)
+    ensures match r {
+        Ok(v) => denoms_distinct(v@)
+            && (forall|d: Seq<char>| coin_sum(v@, d) == #[trigger] coin_sum(coins@, d))
+            && (forall|i: int| 0 <= i < v@.len() ==> has_denom(coins@, #[trigger] v@[i].denom@))
+            && (coins@.len() > 0 ==> v@.len() > 0) && v@.len() <= coins@.len(),
+        Err(_) => true,
+    }
 { unimplemented!() }
+/// mantra-dex-std `add_coins` (coin.rs): adds each coin of `to_add` to the coin of the same denom (Err if absent), then drops zero coins
+#[verifier::external_body]
+pub fn add_coins(coins: Vec<Coin>, to_add: Vec<Coin>) -> (r: Result<Vec<Coin>, StdError>)
+    ensures match r {
+        Ok(v) => (forall|d: Seq<char>| #[trigger] coin_sum(v@, d) == coin_sum(coins@, d) + coin_sum(to_add@, d)),
+        Err(_) => true,
+    }
+{ unimplemented!() }
+
+// ---- token factory (mantra-dex-std::tokenfactory): the Any/Stargate encoding is replaced by a typed message (R14)
+pub uninterp spec fn is_factory_token_spec(denom: Seq<char>) -> bool;
+#[verifier::external_body]
+pub fn is_factory_token(denom: &Str) -> (r: bool) ensures r == is_factory_token_spec(denom@) { unimplemented!() }
+#[verifier::external_body]
+pub fn mint(sender: Addr, coin: Coin, mint_to_address: Str) -> (r: CosmosMsg)
+    ensures r == CosmosMsg::Tf(TfMsg::Mint { sender: sender.s, amount: coin, mint_to: mint_to_address })
+{ unimplemented!() }
+#[verifier::external_body]
+pub fn burn(sender: Addr, coin: Coin, burn_from_address: Str) -> (r: CosmosMsg)
+    ensures r == CosmosMsg::Tf(TfMsg::Burn { sender: sender.s, amount: coin, burn_from: burn_from_address })
+{ unimplemented!() }
+#[verifier::external_body]
+pub fn create_denom(sender: Addr, subdenom: Str) -> (r: CosmosMsg)
+    ensures r == CosmosMsg::Tf(TfMsg::CreateDenom { sender: sender.s, subdenom })
+{ unimplemented!() }
+/// token-factory params query: the denom creation fee (a list of coins)
+#[verifier::external_body]
+pub fn get_factory_denom_creation_fee(deps: Deps) -> (r: Result<Vec<Coin>, StdError>)
+    ensures match r { Ok(v) => v@ == deps.querier.tf_fee@, Err(_) => true }
+{ unimplemented!() }
+
+// ---- `uint::U256` (mantra_dex_std::U256): only what provide_liquidity uses
+pub struct U256 { pub hi: u128, pub lo: u128 }
+impl View for U256 { type V = nat; open spec fn view(&self) -> nat { (self.hi as nat) * p128() + (self.lo as nat) } }
+impl U256 {
+    #[verifier::external_body]
+    pub fn from(x: u128) -> (r: U256) ensures r@ == x as nat { unimplemented!() }
+    #[verifier::external_body]
+    pub fn checked_mul(self, o: U256) -> (r: Option<U256>)
+        ensures match r { Some(x) => x@ == self@ * o@, None => self@ * o@ > u256_max() }
+    { unimplemented!() }
+    #[verifier::external_body]
+    pub fn integer_sqrt(&self) -> (r: U256) ensures r@ * r@ <= self@, self@ < (r@ + 1) * (r@ + 1) { unimplemented!() }
+    /// `as_u128` panics (aborts) if the value does not fit
+    #[verifier::external_body]
+    pub fn as_u128(&self) -> (r: u128) ensures self@ <= U128_MAX, r as nat == self@ { unimplemented!() }
+}
+
+/// `std::cmp::min` (R5)
+#[verifier::external_body]
+pub fn cmp_min(a: Uint128, b: Uint128) -> (r: Uint128) ensures r@ == (if a@ <= b@ { a@ } else { b@ }), r == a || r == b { unimplemented!() }
 
 impl<T> IterExt<T> for [T; 2] {
     open spec fn elems(&self) -> Seq<T> { self@ }
@@ -17,6 +87,8 @@ impl<T> IterExt<T> for [T; 2] {
     fn iter_position<F: Fn(&T) -> bool>(&self, f: F) -> (r: Option<usize>) { unimplemented!() }
     #[verifier::external_body]
     fn iter_any<F: Fn(&T) -> bool>(&self, f: F) -> (r: bool) { unimplemented!() }
+    #[verifier::external_body]
+    fn iter_find<F: Fn(&T) -> bool>(&self, f: F) -> (r: Option<&T>) { unimplemented!() }
     #[verifier::external_body]
     fn iter_all<F: Fn(&T) -> bool>(&self, f: F) -> (r: bool) { unimplemented!() }
 }
